@@ -12,7 +12,7 @@
    default comes back as the default (only -0.0 vs +0.0 differ). *)
 From Coq Require Import List NArith ZArith Bool Arith Lia.
 From TarsV Require Import Gen.Consts Base.Hex Codec.Wire Codec.Skip Codec.Prim Codec.GenCodec Codec.Corr
-  Codec.RoundTrip Codec.RoundTripProofs Frame.Framing Rpc.Filters Rpc.FiltersProofs Rpc.EndToEnd Rpc.EndToEndProofs.
+  Codec.RoundTrip Codec.RoundTripProofs Frame.Framing Rpc.Filters Rpc.FiltersProofs Rpc.EndToEnd Rpc.EndToEndProofs Rpc.EndToEndConc.
 Import ListNotations.
 Open Scope N_scope.
 
@@ -497,6 +497,40 @@ Section Packets.
   Proof.
     cbn zeta. intros Hf Hsig Hty [Hq Hqf].
     apply (oneway_full e k n Hwf Hk64); try assumption. now apply wire_ok_req_full.
+  Qed.
+
+  (* ----- concurrent callers: the packet-codec hypotheses of EndToEndConc.concurrent follow from sendability ----- *)
+  Lemma req_codec_ok_full q : req_sendable q -> EndToEndConc.req_codec_ok e sid_req max_pkt q.
+  Proof.
+    intros [Hq Hfit]. split.
+    - unfold dec_req, enc_req. change (skipn 4 (frame (encode e sid_req (req_val q)))) with (encode e sid_req (req_val q)).
+      rewrite (req_codec q Hq). apply val_req_req_val.
+    - unfold enc_req. change (frame (encode e sid_req (req_val q))) with (mk_packet (encode e sid_req (req_val q))).
+      apply valid_mk_packet; lia.
+  Qed.
+  Lemma rsp_codec_ok_full p : rsp_sendable p -> EndToEndConc.rsp_codec_ok e sid_rsp max_pkt p.
+  Proof.
+    intros [Hp Hfit]. split.
+    - unfold dec_rsp, enc_rsp. change (skipn 4 (frame (encode e sid_rsp (rsp_val p)))) with (encode e sid_rsp (rsp_val p)).
+      rewrite (rsp_codec p Hp). apply val_rsp_rsp_val.
+    - unfold enc_rsp. change (frame (encode e sid_rsp (rsp_val p))) with (mk_packet (encode e sid_rsp (rsp_val p))).
+      apply valid_mk_packet; lia.
+  Qed.
+
+  Theorem concurrent_closed (Ps : pfilters ev unit) i (qs sent : list reqpkt) (chunks_q : list bytes)
+          (written : list rsppkt) (chunks_p : list bytes) :
+    Permutation.Permutation sent qs -> NoDup (map q_id qs) ->
+    Forall req_sendable sent ->
+    concat chunks_q = concat (map (enc_req e sid_req) sent) ->
+    Permutation.Permutation written (server_conn e sid_req max_pkt impl (filters_of disp_res Ps) i chunks_q) ->
+    Forall rsp_sendable written ->
+    concat chunks_p = concat (map (enc_rsp e sid_rsp) written) ->
+    forall q, In q qs -> client_conn e sid_rsp max_pkt chunks_p (q_id q) = srv_reply e impl i q.
+  Proof.
+    intros Hperm Hnd Hs Hcq Hw Hwr Hcp.
+    apply (EndToEndConc.concurrent e sid_req sid_rsp max_pkt impl Ps i qs sent chunks_q written chunks_p); try assumption.
+    - eapply Forall_impl; [|exact Hs]. exact req_codec_ok_full.
+    - eapply Forall_impl; [|exact Hwr]. exact rsp_codec_ok_full.
   Qed.
 End Packets.
 
